@@ -269,3 +269,28 @@ def threaded_reads(rec, r, wd, nthreads=4, size=20000):
             rec.add(ev)
             n += 1
     return n
+
+
+def bf3_huge(rec, r, wd, tier):
+    """Thorough tier: containers whose TOTAL length is a multiple of a large power-of-two-ish block (163840 = 4096 lines of 40 bytes,
+    262144, 327680) or just below / above it, plain and session-key encrypted (> 256 KiB of ciphertext): written, judged byte by byte,
+    read back.  (64 KiB-class sizes are in the quick tier.)"""
+    if tier != "thorough":
+        return 0
+    n = 0
+    for total in (163839, 163840, 163841, 262144 + 80, 327680):
+        for enc in ((False, True) if total in (163840, 262144 + 80) else (False,)):
+            key = L.gen_key(r)
+            probe = L.Bf3File({}, [L.mk_comp({0xC3: b"\x03", 0xC2: b"\x02"} if enc else {0x10: b"\x01"}, bytes(16), 16, enc)])
+            over = len(L.BF3_FILE_SIG + probe.to_binary(5, key)) - 16
+            size = total - over
+            if enc:
+                size -= size % 16
+            blob = bytes((j * 37 + j // 253) % 256 for j in range(size))
+            f = L.Bf3File({}, [L.mk_comp({0xC3: b"\x03", 0xC2: b"\x02"} if enc else {0x10: b"\x01"}, blob, size, enc)])
+            L.rec_to_binary(rec, f, 5, key, _cost=size // 64)
+            text = L.rec_write(rec, f, key, False, wd)
+            rec.events[-1]["_cost"] = size // 64
+            L.rec_read(rec, text, key, True, False, wd, auth=rec.last_written, _cost=size // 64)
+            n += 3
+    return n
